@@ -323,7 +323,7 @@ theorem run_entry (s : St) (impl : List Tok) (il : Int) (lit : Str) (key : List 
     run P s (BlockSrc.entry lit key fields tr).toks =
       afterBlock P s impl il ((BlockSrc.entry lit key fields tr).expected P s.line)
         (nlCount (BlockSrc.entry lit key fields tr).toks) := by
-  obtain ⟨hk, hkey, hfs, htr, hnd⟩ := hw
+  obtain ⟨hk, hkey, hfs, htr⟩ := hw
   simp only [BlockSrc.toks]
   rw [show AT lit :: LB :: (key ++ afterFields fields tr) = [AT lit, LB] ++ key ++ afterFields fields tr from by simp,
     run_append, run_append, run_at_lb P s impl il lit he hm]
@@ -339,14 +339,14 @@ theorem run_entry (s : St) (impl : List Tok) (il : Int) (lit : Str) (key : List 
   rw [omode] at m1
   rw [h1]
   -- the final state in terms of `o`
-  have fin : ∀ fl : List Field, (fl.map (·.key)).Nodup →
+  have fin : ∀ fl : List Field,
       entryDone o (classify P lit).2 (strip P (flatten key)) fl (key ++ afterFields fields tr) =
-      afterBlock P s impl il (.live (.entry (Entry.mk (classify P lit).2 (strip P (flatten key))
-          fl s.line (flatten (AT lit :: LB :: (key ++ afterFields fields tr))) [])))
+      afterBlock P s impl il (mkEntry (classify P lit).2 (strip P (flatten key))
+          fl s.line (flatten (AT lit :: LB :: (key ++ afterFields fields tr))))
         (nlCount (AT lit :: LB :: (key ++ afterFields fields tr))) := by
-    intro fl hfl
+    intro fl
     rw [ho]
-    simp only [entryDone, opened, afterBlock, mkEntry_of_nodup _ _ _ _ _ hfl]
+    simp only [entryDone, opened, afterBlock]
     simp [rflat, flatten, nlCount_cons_AT, nlCount_cons_LB]
   cases fields with
   | nil =>
@@ -354,7 +354,7 @@ theorem run_entry (s : St) (impl : List Tok) (il : Int) (lit : Str) (key : List 
     | none =>
       simp only [afterFields]
       rw [step_rb_in_entKey P s1 _ _ e1.err m1, entryDone_shift e1]
-      have := fin [] (by simp)
+      have := fin []
       simp only [afterFields] at this
       simpa [BlockSrc.expected, BlockSrc.toks, expFields, afterFields, rflat_reverse] using this
     | some w =>
@@ -364,7 +364,7 @@ theorem run_entry (s : St) (impl : List Tok) (il : Int) (lit : Str) (key : List 
       rw [m2] at m3
       rw [show CM :: (w ++ [RB]) = [CM] ++ w ++ [RB] from by simp, run_append, run_append, h2, h3,
         step_rb_in_fldKey P s3 _ _ _ _ e3.err m3, entryDone_shift ((e1.trans e2).trans e3)]
-      have := fin [] (by simp)
+      have := fin []
       simp only [afterFields] at this
       simpa [BlockSrc.expected, BlockSrc.toks, expFields, afterFields, rflat_reverse] using this
   | cons f rest =>
@@ -388,12 +388,9 @@ theorem run_entry (s : St) (impl : List Tok) (il : Int) (lit : Str) (key : List 
     have hl3 : s3.line = s.line + nlCount key + nlCount f.key := by
       rw [((e1.trans e2).trans e3).line, ho]; simp only [opened, nlCount_append, nlCount_CM]; omega
     rw [hl5, hl3]
-    have hkeys : (List.map Field.key ([] ++ (⟨strip P (rflat (f.key.reverse ++ [])), .str (strip P (rflat (f.val.reverse ++ []))),
+    have := fin ([] ++ (⟨strip P (rflat (f.key.reverse ++ [])), .str (strip P (rflat (f.val.reverse ++ []))),
           s.line + nlCount key + nlCount f.key⟩ : Field) ::
-        expFields P (s.line + nlCount key + nlCount f.key + nlCount f.val) rest)).Nodup := by
-      simp only [List.nil_append, List.map_cons, expFields_keys, List.append_nil, rflat_reverse]
-      simpa using hnd
-    have := fin _ hkeys
+        expFields P (s.line + nlCount key + nlCount f.key + nlCount f.val) rest)
     simp only [afterFields] at this
     simp only [Mode.push, List.append_nil, rflat_reverse] at this ⊢
     simpa [BlockSrc.expected, BlockSrc.toks, expFields, afterFields, rflat_reverse] using this
